@@ -424,9 +424,13 @@ Proof. split; vm_compute; reflexivity. Qed.
    callback states / logs.  Dict.dfinal is the IDEAL finite dictionary after the
    same history; d_find its lookup by class.  Both runs exist (no UB), and ==
    on the two resulting containers answers true IF AND ONLY IF the two ideal
-   dictionaries agree at every class.  Second theorem: if moreover V's == is
-   reflexive and the two ideal dictionaries are THE SAME finite map, the two
-   containers compare equal. *)
+   dictionaries agree at every class.  Second theorem (C14_map_eq_same_dict),
+   CORRECTED COMMENT (second audit): its hypothesis `d_find .. = d_find ..`
+   equates the stored (key OBJECT, value) pairs themselves, so it only applies
+   when both histories ended up storing the identical objects; it is NOT "the
+   same finite map up to ==".  That statement is C14_map_eq_agree_dict in the
+   ROUND 2 section at the end of this file (with an Example on different
+   objects). *)
 Theorem C14_map_eq_histories :
   forall (K V Q T : Type) (E : env K V Q T) (ck : K -> N) (cq : Q -> N),
     Lawful E ck cq ->
@@ -509,3 +513,199 @@ Proof.
     destruct (N.eqb_spec 6 c) as [<-|H6]; [reflexivity | exact I].
   - vm_compute. repeat split; reflexivity.
 Qed.
+
+(* ======================================================================== *)
+(* ROUND 2 — second audit (Proofs/MoreEq.v, Parts E)                          *)
+(*  4. C14_map_eq_same_dict only covers identical stored objects:            *)
+(*       C14_map_eq_agree_dict + C14_example_agree_dict (different objects)  *)
+(*  5. no Set twin of C14_map_eq_histories:   C14_set_eq_histories,          *)
+(*       C14_set_eq_sym_run, C14_set_eq_refl_run, C14_example_set_histories  *)
+(*  6. the environment-level hypotheses of C14_map_eq_sym_run / _refl_run are *)
+(*     nothing more than "veq symmetric / reflexive":                         *)
+(*       C14_eqV_sym_of_veq, C14_eqV_refl_of_veq,                             *)
+(*       C14_map_eq_sym_run_veq, C14_map_eq_refl_run_veq                      *)
+(* ======================================================================== *)
+Require Import Proofs.SetDict.
+
+(* ---------------------------------------------------------------------- *)
+(* 6. Given HV (V's == computes the boolean function veq and never panics), the
+   hypotheses `forall s s' x y, fst (eqV E s x y) = fst (eqV E s' y x)` and
+   `forall s x, fst (eqV E s x x) = Yes` of C14_map_eq_sym_run / _refl_run FOLLOW
+   from veq being symmetric / reflexive (first two theorems); so symmetry and
+   reflexivity of the run hold under exactly "V's == is symmetric / reflexive"
+   (last two). *)
+Theorem C14_eqV_sym_of_veq :
+  forall (K V Q T : Type) (E : env K V Q T) (veq : V -> V -> bool),
+    (forall (s : T) (a b : V), fst (eqV E s a b) = (if veq a b then Yes else No)) ->
+    (forall x y : V, veq x y = veq y x) ->
+    forall (s s' : T) (x y : V), fst (eqV E s x y) = fst (eqV E s' y x).
+Proof. exact (@eqV_sym_of_veq). Qed.
+Print Assumptions C14_eqV_sym_of_veq.
+
+Theorem C14_eqV_refl_of_veq :
+  forall (K V Q T : Type) (E : env K V Q T) (veq : V -> V -> bool),
+    (forall (s : T) (a b : V), fst (eqV E s a b) = (if veq a b then Yes else No)) ->
+    (forall x : V, veq x x = true) ->
+    forall (s : T) (x : V), fst (eqV E s x x) = Yes.
+Proof. exact (@eqV_refl_of_veq). Qed.
+Print Assumptions C14_eqV_refl_of_veq.
+
+Theorem C14_map_eq_sym_run_veq :
+  forall (K V Q T : Type) (E : env K V Q T) (ck : K -> N) (cq : Q -> N),
+    Lawful E ck cq ->
+    forall veq : V -> V -> bool,
+    (forall (s : T) (a b : V), fst (eqV E s a b) = (if veq a b then Yes else No)) ->
+    forall (a b : map K V) (w : world K V T),
+      (forall x y : V, veq x y = veq y x) ->
+      WF a -> WF b -> Uniq ck (Spec.elems a) -> Uniq ck (Spec.elems b) ->
+      exists (r : bool) (w1 w2 : world K V T),
+        map_eq E a b w = Ok r w1 /\ map_eq E b a w = Ok r w2 /\ stable w w1 /\ stable w w2.
+Proof. exact (@map_eq_sym_run_veq). Qed.
+Print Assumptions C14_map_eq_sym_run_veq.
+
+Theorem C14_map_eq_refl_run_veq :
+  forall (K V Q T : Type) (E : env K V Q T) (ck : K -> N) (cq : Q -> N),
+    Lawful E ck cq ->
+    forall veq : V -> V -> bool,
+    (forall (s : T) (a b : V), fst (eqV E s a b) = (if veq a b then Yes else No)) ->
+    forall (a : map K V) (w : world K V T),
+      (forall x : V, veq x x = true) ->
+      WF a -> Uniq ck (Spec.elems a) ->
+      exists w' : world K V T, map_eq E a a w = Ok true w' /\ stable w w'.
+Proof. exact (@map_eq_refl_run_veq). Qed.
+Print Assumptions C14_map_eq_refl_run_veq.
+
+(* ---------------------------------------------------------------------- *)
+(* 4. Two histories whose IDEAL dictionaries hold the same classes with
+   ==-related values - the key and value OBJECTS may all be different - produce
+   containers that compare equal (run from any world; container and log of that
+   world untouched).  No reflexivity of == is needed. *)
+Theorem C14_map_eq_agree_dict :
+  forall (K V Q T : Type) (E : env K V Q T) (ck : K -> N) (cq : Q -> N),
+    Lawful E ck cq ->
+    forall veq : V -> V -> bool,
+    (forall (s : T) (a b : V), fst (eqV E s a b) = (if veq a b then Yes else No)) ->
+    forall (debug : bool) (na nb : nat) (ops_a ops_b : list (@dop K V Q)) (sa sb : T) (la lb : list event),
+      (forall c : N,
+          match d_find ck (dfinal ck cq na ops_a []) c, d_find ck (dfinal ck cq nb ops_b []) c with
+          | Some (_, v), Some (_, v') => veq v' v = true
+          | None, None => True
+          | _, _ => False
+          end) ->
+      exists wa wb : world K V T,
+        mfinal E debug ops_a {| cb := sa; log := la; self := new_map na |} = Some wa /\
+        mfinal E debug ops_b {| cb := sb; log := lb; self := new_map nb |} = Some wb /\
+        (forall w : world K V T,
+            exists w' : world K V T, map_eq E (self wa) (self wb) w = Ok true w' /\ stable w w').
+Proof. exact (@map_eq_agree_dict). Qed.
+Print Assumptions C14_map_eq_agree_dict.
+
+(* non-vacuity on DIFFERENT objects: the two histories of C14_example_histories
+   store keys K1,K3 / K15,K13 and values V2,V4 / V16,V18 - no object in common -
+   and satisfy the hypothesis (proved there); here: no stored pair of one
+   dictionary is a stored pair of the other, so C14_map_eq_same_dict would NOT
+   apply, while the hypothesis of C14_map_eq_agree_dict holds *)
+Example C14_example_agree_dict :
+  let veq := fun a b : vobj => N.eqb (vdat a) (vdat b) in
+  let ops_a : list (@dop key vobj query) := [DInsert (k_ 1 5) (v_ 2 7); DInsert (k_ 3 6) (v_ 4 8)] in
+  let ops_b : list (@dop key vobj query) :=
+    [DInsert (k_ 11 9) (v_ 12 1); DInsert (k_ 13 6) (v_ 14 0); DInsert (k_ 15 5) (v_ 16 7);
+     DRemove (QCls 9); DInsert (k_ 17 6) (v_ 18 8)] in
+  d_find kcls (dfinal kcls qcls 2 ops_a []) 5 = Some (k_ 1 5, v_ 2 7) /\
+  d_find kcls (dfinal kcls qcls 5 ops_b []) 5 = Some (k_ 15 5, v_ 16 7) /\
+  d_find kcls (dfinal kcls qcls 2 ops_a []) 5 <> d_find kcls (dfinal kcls qcls 5 ops_b []) 5 /\
+  (forall c : N,
+      match d_find kcls (dfinal kcls qcls 2 ops_a []) c, d_find kcls (dfinal kcls qcls 5 ops_b []) c with
+      | Some (_, v), Some (_, v') => veq v' v = true
+      | None, None => True
+      | _, _ => False
+      end).
+Proof.
+  cbv zeta. split; [vm_compute; reflexivity|]. split; [vm_compute; reflexivity|].
+  split; [vm_compute; discriminate|].
+  intros c.
+  replace (dfinal kcls qcls 2 [DInsert (k_ 1 5) (v_ 2 7); DInsert (k_ 3 6) (v_ 4 8)] [])
+    with [(k_ 1 5, v_ 2 7); (k_ 3 6, v_ 4 8)] by (vm_compute; reflexivity).
+  replace (dfinal kcls qcls 5 _ []) with [(k_ 13 6, v_ 18 8); (k_ 15 5, v_ 16 7)] by (vm_compute; reflexivity).
+  unfold d_find. cbn [find fst kcls k_].
+  destruct (N.eqb_spec 5 c) as [<-|H5]; [reflexivity|].
+  destruct (N.eqb_spec 6 c) as [<-|H6]; [reflexivity | exact I].
+Qed.
+
+(* ---------------------------------------------------------------------- *)
+(* 5. Sets.  ops_a, ops_b: ANY two histories of the nine set operations
+   (SetDict.sop: insert, replace, contains, get, remove, take, retain, clear,
+   extend) run by the model (SetDict.smfinal) from empty sets of any capacities;
+   SetDict.fsfinal is the IDEAL finite set after the same history.  Both runs
+   exist, and == on the two resulting sets answers true IF AND ONLY IF the two
+   ideal sets hold the same element classes.  Hypothesis on eqV: () == () answers
+   Yes (true of env_set by computation).
+   Reflexivity / symmetry of == on sets are the instances of
+   C14_map_eq_refl_run_veq / C14_map_eq_sym_run_veq at veq := fun _ _ => true,
+   which is trivially reflexive and symmetric: no hypothesis about == on
+   values is left (C14_set_eq_refl_run, C14_set_eq_sym_run). *)
+Theorem C14_set_eq_histories :
+  forall (K Q T : Type) (E : env K unit Q T) (ck : K -> N) (cq : Q -> N),
+    Lawful E ck cq ->
+    (forall (s : T) (a b : unit), fst (eqV E s a b) = Yes) ->
+    forall (debug : bool) (na nb : nat) (ops_a ops_b : list (@sop K Q)) (sa sb : T) (la lb : list event),
+    exists wa wb : world K unit T,
+      smfinal E debug ops_a {| cb := sa; log := la; self := new_map na |} = Some wa /\
+      smfinal E debug ops_b {| cb := sb; log := lb; self := new_map nb |} = Some wb /\
+      cap (self wa) = na /\
+      cap (self wb) = nb /\
+      (forall w : world K unit T,
+          wp (map_eq E (self wa) (self wb))
+             (fun (r : bool) (w' : world K unit T) =>
+                stable w w' /\
+                (r = true <->
+                 (forall c : N,
+                     In c (List.map ck (fsfinal ck cq na ops_a [])) <->
+                     In c (List.map ck (fsfinal ck cq nb ops_b [])))))
+             (fun _ : world K unit T => False) w).
+Proof. exact (@set_eq_histories). Qed.
+Print Assumptions C14_set_eq_histories.
+
+Theorem C14_set_eq_sym_run :
+  forall (K Q T : Type) (E : env K unit Q T) (ck : K -> N) (cq : Q -> N),
+    Lawful E ck cq ->
+    (forall (s : T) (a b : unit), fst (eqV E s a b) = Yes) ->
+    forall (a b : map K unit) (w : world K unit T),
+      WF a -> WF b -> Uniq ck (Spec.elems a) -> Uniq ck (Spec.elems b) ->
+      exists (r : bool) (w1 w2 : world K unit T),
+        map_eq E a b w = Ok r w1 /\ map_eq E b a w = Ok r w2 /\ stable w w1 /\ stable w w2.
+Proof. exact (@set_eq_sym_run). Qed.
+Print Assumptions C14_set_eq_sym_run.
+
+Theorem C14_set_eq_refl_run :
+  forall (K Q T : Type) (E : env K unit Q T) (ck : K -> N) (cq : Q -> N),
+    Lawful E ck cq ->
+    (forall (s : T) (a b : unit), fst (eqV E s a b) = Yes) ->
+    forall (a : map K unit) (w : world K unit T),
+      WF a -> Uniq ck (Spec.elems a) ->
+      exists w' : world K unit T, map_eq E a a w = Ok true w' /\ stable w w'.
+Proof. exact (@set_eq_refl_run). Qed.
+Print Assumptions C14_set_eq_refl_run.
+
+(* two different set histories (other order, a removal, a duplicate insert, other
+   objects, capacities 2 and 4) with the same ideal element classes {5, 6}: the
+   model's results differ in slot order and capacity and compare equal *)
+Example C14_example_set_histories :
+  let E := env_set {| sc_adv := false; sc_seed := 0; sc_fk := 0; sc_fa := 0 |} in
+  let w0 (n : nat) : world key unit cstate := {| cb := cs0; log := []; self := new_map n |} in
+  let ops_a : list (@sop key query) := [SoInsert (k_ 1 5); SoInsert (k_ 2 6)] in
+  let ops_b : list (@sop key query) :=
+    [SoInsert (k_ 7 9); SoInsert (k_ 8 6); SoInsert (k_ 9 5); SoRemove (QCls 9); SoInsert (k_ 10 6)] in
+  List.map kcls (fsfinal kcls qcls 2 ops_a []) = [5; 6]%N /\
+  List.map kcls (fsfinal kcls qcls 4 ops_b []) = [6; 5]%N /\
+  match smfinal E false ops_a (w0 2), smfinal E false ops_b (w0 4) with
+  | Some wa, Some wb =>
+      self wa = {| len := 2; slots := [Some (k_ 1 5, tt); Some (k_ 2 6, tt)] |} /\
+      self wb = {| len := 2; slots := [Some (k_ 9 5, tt); Some (k_ 8 6, tt); None; None] |} /\
+      match map_eq E (self wa) (self wb) (w0 0) with
+      | Ok r w' => r = true /\ log w' = [] /\ self w' = new_map 0
+      | _ => False
+      end
+  | _, _ => False
+  end.
+Proof. cbv zeta. split; [vm_compute; reflexivity|]. split; [vm_compute; reflexivity|]. vm_compute. repeat split; reflexivity. Qed.
